@@ -74,7 +74,7 @@ func c10CopyDir(dst, src string) error {
 func TestVerifC10(t *testing.T) {
 	rec := ev.New("C10", "swap-matrix")
 	defer rec.Flush()
-	rec.Rule("every index role {cid_to_offset_and_size, slot_to_cid, sig_to_cid, sig_exists, gsfa dir, gsfa manifest alone, gsfa pubkey index alone, slot_to_blocktime} x donor {other epoch, same epoch other CAR, file of another role, same content with one identity field (epoch / root CID / kind) changed}, singly and in pairs; the file roles again with the index fetched over HTTP; a current-format sibling of another epoch/CAR beside A's own legacy-format slot-to-cid / sig-to-cid; identity round trip; wrong-CAR fetches; distinct = distinct (role(s), donor, field) substitutions")
+	rec.Rule("every index role {cid_to_offset_and_size, slot_to_cid, sig_to_cid, sig_exists, gsfa dir, gsfa manifest alone, gsfa pubkey index alone, slot_to_blocktime} x donor {other epoch, same epoch other CAR, file of another role, same content with one identity field (epoch / root CID / kind) changed}, singly and in pairs; the file roles again with the index fetched over HTTP; a current-format sibling of another epoch/CAR beside A's own legacy-format slot-to-cid / sig-to-cid; identity round trip; wrong-CAR fetches; fetches from a CAR cut short behind a piece-style reader; distinct = distinct (role(s), donor, field) substitutions")
 	seed := ev.Seed()
 	root := filepath.Join(ev.Scratch(), "c10")
 	os.MkdirAll(root, 0o755)
@@ -541,6 +541,53 @@ func TestVerifC10(t *testing.T) {
 			}
 		}
 	}
+	// ---- a CAR that is shorter than the one the indexes were built from (a missing last piece, an upload cut
+	// short), read through a piece-style reader that reports a short read as (n, io.EOF) - as the split-CAR
+	// multi-reader does: an object that straddles the end must fail, never come back padded
+	{
+		carBytes, err := os.ReadFile(A.CarPath)
+		if err != nil {
+			t.Fatal(err)
+		}
+		last := A.Model.Sections[len(A.Model.Sections)-1]
+		mid := A.Model.Sections[len(A.Model.Sections)*2/3]
+		cuts := []uint64{last.Offset + last.Len - 1, last.Offset + last.Len/2, last.Offset + 45, mid.Offset + mid.Len - 3, mid.Offset + mid.Len/2}
+		for _, cut := range cuts {
+			if cut == 0 || cut >= uint64(len(carBytes)) {
+				continue
+			}
+			if err := tryLoad(map[string]string{}); err != nil {
+				t.Fatal(err)
+			}
+			ep, err := A.vfLoad(vfNewCache())
+			if err != nil {
+				t.Fatal(err)
+			}
+			ep.localCarReader = nil
+			ep.remoteCarReader = c10ShortCar(carBytes[:cut])
+			nFail, nOK := 0, 0
+			for _, sct := range A.Model.Sections {
+				if sct.Offset+sct.Len <= cut-200 && sct.Offset+sct.Len > 300 {
+					continue // far from the cut: covered elsewhere
+				}
+				rec.Eval(1)
+				data, err := ep.GetNodeByCid(ctx, sct.Cid)
+				if err != nil {
+					nFail++
+					continue
+				}
+				nOK++
+				if !bytes.Equal(data, sct.Data) {
+					rec.Violation("short-car-served-padded-bytes", fmt.Sprintf("CAR of %d bytes cut at %d: GetNodeByCid(%s) (section at %d, %d bytes) returned %d bytes that are not the object's", len(carBytes), cut, sct.Cid, sct.Offset, sct.Len, len(data)), c10Case{Seed: seed, Note: fmt.Sprintf("cut=%d cid=%s", cut, sct.Cid)})
+					break
+				}
+			}
+			rec.Count("short_car_fetches_failed", nFail)
+			rec.Count("short_car_fetches_exact", nOK)
+			rec.Distinct(fmt.Sprintf("shortcar/%d", cut))
+			ep.Close()
+		}
+	}
 	var ks []string
 	for k := range fx {
 		ks = append(ks, k)
@@ -558,3 +605,20 @@ func c10What(epoch, root bool) string {
 	}
 	return "root CID"
 }
+
+// c10ShortCar serves a byte slice like one piece of a split CAR: a read that reaches past the end returns the
+// bytes there are together with io.EOF.
+type c10ShortCar []byte
+
+func (b c10ShortCar) ReadAt(p []byte, off int64) (int, error) {
+	if off < 0 || off >= int64(len(b)) {
+		return 0, io.EOF
+	}
+	n := copy(p, b[off:])
+	if n < len(p) {
+		return n, io.EOF
+	}
+	return n, nil
+}
+
+func (b c10ShortCar) Close() error { return nil }
